@@ -253,8 +253,20 @@ c.modifies('Packet.encode_cache', 'new Payload.packets')
 
 c = REG.contract('base_server.BaseServer._generate_sid_cookie', props=['C11'])
 c.param('self', Ref('BaseServer')).param('sid', STR)
-c.param('attributes', [Ty('rec', ('SameSite', STR), ('name', STR), ('path', STR))])
+c.param('attributes', [Ty('rec', ('SameSite', STR), ('name', STR), ('path', STR)),
+                        Dict(STR, ANY)])
 c.returns(STR)
-c.ensures('carries-sid-and-attributes', 'result == cookie_value(sid, attributes)')
-c.note('only the plain-string cookie configuration (name, path=/, SameSite=Lax) is under '
-       'contract; dict configurations with boolean/callable attributes are not modelled')
+# dict configurations (documented attribute values: a string, a boolean, a callable): the contract
+# covers string and boolean values; no exception may escape and the cookie starts with name=sid
+c.requires("implies(not is_record(attributes), all_values(attributes, lambda v: "
+           "isinstance(v, str) or isinstance(v, bool)) and "
+           "implies('name' in attributes, isinstance(attributes['name'], str)))",
+           'documented-attribute-values')
+c.ensures('carries-sid-and-attributes', "implies(is_record(attributes), "
+          "result == cookie_value(sid, attributes))")
+c.ensures('dict-configuration-starts-with-name-and-sid', "implies(not is_record(attributes), "
+          "result.startswith((attributes['name'] if 'name' in attributes else 'io') + '=' + sid))")
+c.loop(0, index='i', invariants=[
+    ('prefix-kept', "cookie.startswith((attributes['name'] if 'name' in attributes else 'io') + "
+     "'=' + sid)")], modifies=['cookie', 'attribute', 'value'])
+c.note('callable attribute values of a dict cookie configuration are not modelled')
